@@ -2,6 +2,7 @@
 package main
 
 import (
+	"syscall"
 	"context"
 	"fmt"
 	"github.com/criyle/go-sandbox/pkg/mount"
@@ -100,6 +101,7 @@ func main() {
 		(&ptrace.Runner{Args: []string{hx.Target(), "exit", "0"}, Env: []string{}, WorkDir: "/", Limit: limit, Seccomp: hx.AllowAll(), Handler: allowAll{}}).Run(context.Background())
 		base := measure(env)
 		log := []string{}
+		leftAfterRun, leftAfterWhich := 0, ""
 		for i, raw := range c["ops"].([]any) {
 			op := raw.(map[string]any)
 			args := []string{}
@@ -137,6 +139,10 @@ func main() {
 					}
 					if op["cb"] == "fail" {
 						p.SyncFunc = func(int) error { return fmt.Errorf("no") }
+					}
+					if op["cb"] == "fail_late" {
+						// the callback fails once the program (started already: sync after exec) has built its process tree
+						p.SyncFunc = func(int) error { time.Sleep(150 * time.Millisecond); return fmt.Errorf("no") }
 					}
 					if len(args) > 0 && args[0] == "RAW" {
 						p.Args = args[1:]
@@ -180,6 +186,16 @@ func main() {
 					// a launch that fails at exec: the child must be reaped
 					r := &forkexec.Runner{Args: []string{"/nonexistent-" + token}, Env: []string{}}
 					r.Start()
+				case "idmapfail":
+					// a launch whose id map the kernel refuses (an entry of size 0 / overlapping ranges): the launcher gives up cleanly
+					r := &forkexec.Runner{Args: []string{"/bin/true"}, Env: []string{}, CloneFlags: unix.CLONE_NEWUSER}
+					if i%2 == 0 {
+						r.UIDMappings = []syscall.SysProcIDMap{{ContainerID: 0, HostID: 0, Size: 0}}
+					} else {
+						r.UIDMappings = []syscall.SysProcIDMap{{ContainerID: 0, HostID: 0, Size: 10}, {ContainerID: 5, HostID: 100, Size: 10}}
+						r.GIDMappings = []syscall.SysProcIDMap{{ContainerID: 0, HostID: 0, Size: 1}}
+					}
+					r.Start()
 				case "clonefail":
 					// a launch whose clone itself fails (a descriptor that is not a cgroup directory)
 					f, _ := os.Open("/dev/null")
@@ -193,10 +209,19 @@ func main() {
 				return map[string]any{"hang": fmt.Sprintf("operation %d (%s) did not return within 15 s", i, op["kind"]), "log": log}
 			}
 			log = append(log, fmt.Sprintf("%s:%d", op["kind"], int(res.Status)))
+			if env != nil && op["kind"] == "container" && (op["cb"] != nil || hx.Int(op["timeout_ms"]) < 1000) {
+				// right after a run that failed or was cut short: everything it started has been reaped by the init already
+				// (not only once a later run sweeps)
+				env.Ping()
+				if n := len(children(container.InitPidVerif(env))); n > leftAfterRun {
+					leftAfterRun = n
+					leftAfterWhich = fmt.Sprintf("operation %d (%v)", i, op)
+				}
+			}
 		}
 		time.Sleep(50 * time.Millisecond)
 		after := measure(env)
-		out := map[string]any{"base": base, "after": after, "log": log, "token_procs": tokenProcs(token)}
+		out := map[string]any{"base": base, "after": after, "log": log, "token_procs": tokenProcs(token), "left_after_run": leftAfterRun, "left_after_which": leftAfterWhich}
 		if env != nil {
 			env.Destroy()
 		}
